@@ -54,6 +54,15 @@ func derItems(named ...any) []item {
 	return out
 }
 
+// upnBig is the 0x10020-byte buffer behind the UPN_DNS_INFO field block (UTF-16 'a's so that every in-range slice decodes).
+var upnBig, upnBigZero = func() ([]byte, []byte) {
+	b := make([]byte, 0x10020)
+	for i := 16; i+1 < len(b); i += 2 {
+		b[i] = 'a'
+	}
+	return b, make([]byte, 16)
+}()
+
 func binItems(named ...any) []item {
 	out := derItems(named...)
 	for i := range out {
@@ -387,6 +396,18 @@ func (w *world) decoders() ([]*entry, error) {
 			binItems("srv", testdata.MarshaledPAC_Server_Signature, "kdc", testdata.MarshaledPAC_KDC_Signature, "rodc", cat(unhex(testdata.MarshaledPAC_Server_Signature), []byte{1, 0}))),
 		unm("pac.UPNDNSInfo.Unmarshal", 1000, func(b []byte) error { var m gopac.UPNDNSInfo; return m.Unmarshal(b) },
 			binItems("td", testdata.MarshaledPAC_UPN_DNS_Info, "sample", upn)),
+		// the same decoder on a buffer longer than 64 KiB: its 16-bit offset and length fields can then address the end of the
+		// buffer, where sums that are right in int wrap around in uint16. The input is the 12-byte field block; the strings
+		// area is constant.
+		unm("pac.UPNDNSInfo.Unmarshal(field block in front of a 64 KiB buffer)", 300, func(b []byte) error {
+			if len(b) > 16 {
+				b = b[:16]
+			}
+			copy(upnBig, upnBigZero[:16])
+			copy(upnBig, b)
+			var m gopac.UPNDNSInfo
+			return m.Unmarshal(upnBig)
+		}, binItems("end-of-buffer", []byte{0x20, 0, 0xf0, 0xff, 0x10, 0, 0x10, 0, 0, 0, 0, 0}, "start-of-buffer", []byte{0x20, 0, 0x20, 0, 0x10, 0, 0x10, 0, 1, 0, 0, 0})),
 		unm("pac.S4UDelegationInfo.Unmarshal", 1000, func(b []byte) error { var m gopac.S4UDelegationInfo; return m.Unmarshal(b) },
 			binItems("crafted", ndrS4U())),
 		unm("pac.ClientClaimsInfo.Unmarshal", 3000, func(b []byte) error { var m gopac.ClientClaimsInfo; return m.Unmarshal(b) }, []item{claims[0], claims[2], claims[5]}),
